@@ -163,6 +163,15 @@ def run(chk):
                       f"(truthiness idioms lose -0.0, None becomes a number)")
     for c in [c for c in ast.walk(f.node) if isinstance(c, ast.Call) and isinstance(c.func, ast.Attribute) and c.func.attr == "pack"]:
         chk.check([src(a) for a in c.args] == [vparam] and not c.keywords, "R4", f"{OD}:ODVariable.encode_raw | packs the value itself", f.loc(c), src(c))
+    # the packer alone decides what fits: a second range test in front of it would have to agree with it for every value
+    # (including +-inf, NaN and the range ends), which this analysis cannot establish
+    for rs in [n for n in own_nodes(f.node) if isinstance(n, ast.Raise)]:
+        g = fenc.facts_at(rs)
+        rng = [e for e, p in g if any(isinstance(x, ast.Compare) and any(isinstance(o, (ast.Lt, ast.LtE, ast.Gt, ast.GtE)) for o in x.ops)
+                                       and vparam in [y.id for y in ast.walk(x) if isinstance(y, ast.Name)] for x in ast.walk(e))]
+        if rng:
+            chk.unk("R4", f"{OD}:ODVariable.encode_raw | range pre-check `{src(rng[0])[:50]}`", f.loc(rs),
+                    "a range test of the value raises before the packer is asked: it must accept exactly the type's values (for REAL types also +-inf and NaN); not decidable here")
 
     # ---------------------------------------------------------------- R5 __len__
     f = repo.func(OD, "ODVariable.__len__", "C04.R5")
@@ -216,6 +225,42 @@ def run(chk):
             chk.check(isinstance(codec, str) and codec.lower() in want_codec[tcode], "R6",
                       f"{OD}:ODVariable.{fname} | type 0x{tcode:X}", f.loc(r),
                       f"codec {codec!r} is not {sorted(want_codec[tcode])[0]!r}")
+    # the decoded text is the codec's result; only trailing NULs (padding of C-based devices) may be removed
+    fdec = repo.func(OD, "ODVariable.decode_raw", "C04.R6")
+    for r in [n for n in ast.walk(fdec.node) if isinstance(n, ast.Return) and n.value is not None]:
+        e = r.value
+        if not any(isinstance(c, ast.Call) and isinstance(c.func, ast.Attribute) and c.func.attr == "decode" for c in ast.walk(e)):
+            continue
+        # one level of helper: self._h(<expr>) with `return <expression of its parameter>`
+        if isinstance(e, ast.Call) and isinstance(e.func, ast.Attribute) and dotted(e.func.value) in ("self", "ODVariable") and e.func.attr in odv.methods and len(e.args) == 1:
+            h = odv.methods[e.func.attr]
+            hrets = [n for n in own_nodes(h.node) if isinstance(n, ast.Return) and n.value is not None]
+            hp = [p_ for p_ in h.params if p_ != "self"]
+            if len(hrets) == 1 and len(hp) == 1:
+                from .common import substitute_src
+                e = substitute_src(hrets[0].value, {hp[0]: e.args[0]})
+        steps = []
+        cur = e
+        while isinstance(cur, ast.Call) and isinstance(cur.func, ast.Attribute) and cur.func.attr != "decode":
+            steps.append(cur)
+            cur = cur.func.value
+        while isinstance(cur, ast.Subscript):
+            steps.append(cur)
+            cur = cur.value
+            while isinstance(cur, ast.Call) and isinstance(cur.func, ast.Attribute) and cur.func.attr != "decode":
+                steps.append(cur)
+                cur = cur.func.value
+        core_ok = isinstance(cur, ast.Call) and isinstance(cur.func, ast.Attribute) and cur.func.attr == "decode" and src(cur.func.value) == fdec.params[1]
+        if not core_ok:
+            chk.unk("R6", f"{OD}:ODVariable.decode_raw | `{src(r.value)[:50]}`", fdec.loc(r), "decoded text is post-processed in a way the rule does not recognise")
+            continue
+        extra = []
+        for st_ in steps:
+            if isinstance(st_, ast.Call) and st_.func.attr == "rstrip" and len(st_.args) == 1 and folder.try_fold(st_.args[0], Scope(odm, odv), None) == "\x00":
+                continue
+            extra.append(src(st_)[len(src(cur)):] if src(st_).startswith(src(cur)) else src(st_))
+        chk.check(not extra, "R6", f"{OD}:ODVariable.decode_raw | decoded text returned as decoded (only trailing NULs removed)", fdec.loc(r),
+                  f"the decoded text is further processed by `{extra[-1] if extra else ''}`: text containing such characters (an embedded NUL, leading blanks, ...) does not round-trip")
     for tcode, d in want_codec.items():
         got = per_type.get(tcode, {})
         if set(got) != {"encode_raw", "decode_raw"}:
